@@ -31,6 +31,7 @@ import (
 	"github.com/pingcap/kvproto/pkg/errorpb"
 	"github.com/pingcap/kvproto/pkg/kvrpcpb"
 	"github.com/pingcap/kvproto/pkg/metapb"
+	pkgerrors "github.com/pkg/errors"
 	"github.com/tikv/client-go/v2/config/retry"
 	"github.com/tikv/client-go/v2/internal/apicodec"
 	"github.com/tikv/client-go/v2/internal/client"
@@ -43,6 +44,8 @@ import (
 	"github.com/tikv/client-go/v2/util"
 	"github.com/tikv/client-go/v2/util/async"
 	"github.com/tikv/client-go/v2/verifx/vx"
+	"google.golang.org/grpc/codes"
+	"google.golang.org/grpc/status"
 )
 
 // ---------------------------------------------------------------------------------------------- configuration
@@ -141,6 +144,50 @@ var modes = map[string]kv.ReplicaReadType{
 var faults = []string{
 	"ok", "rpcerr", "down", "deadline", "nl", "nl1", "nl2", "nl3", "nlnext", "nlx", "epoch", "epochr", "epochold", "rnf",
 	"busy", "busyw", "busydl", "stale", "snm", "dnr", "maxts", "diskfull", "dlmsg", "unk",
+	// answers the sender special-cases by field / content (onRegionError and onSendFail, branch by branch)
+	"undet", "recov", "witness", "flashback", "flashbacknp", "toolarge", "badmaxts", "knir", "bucket", "notinit", "rinr",
+	"merging", "mismatch", "rpccancel", "grpccancel", "grpcdeadline",
+}
+
+// fatalFaults: answers after which the sender gives up with an error of its own (no retry, no region error for the caller)
+var fatalFaults = map[string]bool{"flashback": true, "flashbacknp": true, "toolarge": true, "badmaxts": true, "rpccancel": true}
+
+// owedBackoff: the back-off the sender owes after an answer before it may send again —
+// (kind, true): before ANY further RPC (the handler calls bo.Backoff itself);
+// (kind, false): before the next RPC to the SAME store (immediate or pending back-off of onServerIsBusy).
+// shortRead: read command whose time-out is below ReadTimeoutShort (deadline answers then only flag the replica).
+func owedBackoff(fault string, shortRead bool) (kind string, immediate bool) {
+	switch fault {
+	case "rpcerr", "down", "grpccancel":
+		return "tikvRPC", true
+	case "deadline", "grpcdeadline":
+		if shortRead {
+			return "", false
+		}
+		return "tikvRPC", true
+	case "nl", "rinr", "merging":
+		return "regionScheduling", true
+	case "maxts":
+		return "maxTsNotSynced", true
+	case "diskfull":
+		return "tikvDiskFull", true
+	case "epochold":
+		return "regionMiss", true
+	case "recov":
+		return "regionRecoveryInProgress", true
+	case "witness":
+		return "isWitness", true
+	case "notinit":
+		return "regionNotInitialized", true
+	case "busy", "busyw":
+		return "tikvServerBusy", false
+	case "busydl":
+		if shortRead {
+			return "", false
+		}
+		return "tikvServerBusy", false
+	}
+	return "", false
 }
 
 func isFault(f string) bool {
@@ -183,7 +230,16 @@ type rpcRec struct {
 	payload       string
 }
 
+// seqItem: the implementation's RPCs and back-offs in the order they happened
+type seqItem struct {
+	send  bool
+	store int
+	fault string
+	kind  string // back-off config name
+}
+
 type runner struct {
+	seq    []seqItem
 	cfg    caseCfg
 	script []string
 	tail   string
@@ -267,6 +323,7 @@ func (r *runner) observe() {
 				part = dm - (dm/d)*(d-1)
 			}
 			r.ev(fmt.Sprintf("ev backoff %s %d", k, part))
+			r.seq = append(r.seq, seqItem{kind: k})
 			r.nBackoff++
 			n++
 		}
@@ -372,8 +429,9 @@ func (c *scriptClient) SendRequest(ctx context.Context, addr string, req *tikvrp
 	}
 	r.rpcs = append(r.rpcs, rec)
 	r.observeAttempts(rec.peer, rec.proxy)
-	r.ev(fmt.Sprintf("ev send %d %d %s %s %s %d %d %s", rec.peer, rec.store, b01(rec.rr), b01(rec.sr), b01(rec.retry), rec.proxy,
-		r.consumedAttempts(rec), r.respLabel(fault, rec)))
+	r.ev(fmt.Sprintf("ev send %d %d %s %s %s %d %d %s %s", rec.peer, rec.store, b01(rec.rr), b01(rec.sr), b01(rec.retry), rec.proxy,
+		r.consumedAttempts(rec), r.respLabel(fault, rec), fault))
+	r.seq = append(r.seq, seqItem{send: true, store: rec.store, fault: fault})
 	return resp, err
 }
 
@@ -406,7 +464,7 @@ func (r *runner) respLabel(fault string, rec rpcRec) string {
 	switch fault {
 	case "ok":
 		return "ok"
-	case "rpcerr", "down", "deadline":
+	case "rpcerr", "down", "deadline", "rpccancel", "grpccancel", "grpcdeadline":
 		return "rpcerr"
 	case "nl1", "nl2", "nl3":
 		return "nlhint:" + fault[2:]
@@ -505,6 +563,38 @@ func (r *runner) answer(fault string, rec rpcRec, req *tikvrpc.Request, n int) (
 		e.Message = "Deadline is exceeded"
 	case "unk":
 		e.Message = "some unknown error"
+	case "rpccancel":
+		return nil, pkgerrors.WithStack(context.Canceled) // the client reports a cancellation although the caller's context is alive
+	case "grpccancel":
+		return nil, status.Error(codes.Canceled, "grpc: the client connection is closing")
+	case "grpcdeadline":
+		return nil, status.Error(codes.DeadlineExceeded, "context deadline exceeded")
+	case "undet":
+		e.UndeterminedResult = &errorpb.UndeterminedResult{}
+	case "recov":
+		e.RecoveryInProgress = &errorpb.RecoveryInProgress{RegionId: r.regionID}
+	case "witness":
+		e.IsWitness = &errorpb.IsWitness{RegionId: r.regionID}
+	case "flashback":
+		e.FlashbackInProgress = &errorpb.FlashbackInProgress{RegionId: r.regionID, FlashbackStartTs: 7}
+	case "flashbacknp":
+		e.FlashbackNotPrepared = &errorpb.FlashbackNotPrepared{RegionId: r.regionID}
+	case "toolarge":
+		e.RaftEntryTooLarge = &errorpb.RaftEntryTooLarge{RegionId: r.regionID, EntrySize: 1 << 30}
+	case "badmaxts":
+		e.Message = "invalid max_ts update: 10 exceeds the limit 5"
+	case "knir":
+		e.KeyNotInRegion = &errorpb.KeyNotInRegion{Key: []byte("key"), RegionId: r.regionID}
+	case "bucket":
+		e.BucketVersionNotMatch = &errorpb.BucketVersionNotMatch{Version: 9, Keys: [][]byte{[]byte("a"), []byte("z")}}
+	case "notinit":
+		e.RegionNotInitialized = &errorpb.RegionNotInitialized{RegionId: r.regionID}
+	case "rinr":
+		e.ReadIndexNotReady = &errorpb.ReadIndexNotReady{RegionId: r.regionID}
+	case "merging":
+		e.ProposalInMergingMode = &errorpb.ProposalInMergingMode{RegionId: r.regionID}
+	case "mismatch":
+		e.MismatchPeerId = &errorpb.MismatchPeerId{RequestPeerId: 1, StorePeerId: 2}
 	default:
 		return nil, errors.New("bad fault")
 	}
@@ -745,6 +835,9 @@ func (r *runner) run() (out outcome) {
 		}
 	}
 	// identity of the payload object (the async entry point copies the outer tikvrpc.Response into a ResponseExt)
+	if rs.err != nil && !r.unbounded && !hang && len(r.rpcs) > 0 && fatalFaults[r.rpcs[len(r.rpcs)-1].fault] && detail != "tsinvalid" {
+		detail = "fatal" // the sender's own error for an answer it never retries
+	}
 	lastIsResp := len(r.rpcs) > 0 && rs.resp != nil && r.rpcs[len(r.rpcs)-1].resp != nil && r.rpcs[len(r.rpcs)-1].resp.Resp == rs.resp.Resp
 	r.mu.Lock()
 	r.ev(fmt.Sprintf("ev result %s %s %s", result, detail, b01(lastIsResp)))
@@ -812,6 +905,8 @@ func (r *runner) run() (out outcome) {
 			g = "ok" // reported by `prop bounded`
 		case spent:
 			g = "ok"
+		case detail == "fatal":
+			g = "ok" // flashback / raft entry too large / invalid max_ts update / cancellation reported by the client
 		default:
 			g = fmt.Sprintf("FAIL error-before-budget-spent class=%s total=%d excluded=%d budget=%d", detail, total, excluded, c.budget)
 		}
@@ -819,6 +914,33 @@ func (r *runner) run() (out outcome) {
 		g = "FAIL result " + result
 	}
 	emit("prop genuine", g)
+
+	// 2b. every retry path switches peer or consumes back-off budget: after an answer for which the sender owes a back-off
+	// no further RPC (to any store / to the same store) leaves before a back-off of that config happened
+	shortRead := c.short && !isWriteCmd(c.cmd)
+	d := "ok"
+	for i, it := range r.seq {
+		if !it.send {
+			continue
+		}
+		kind, imm := owedBackoff(it.fault, shortRead)
+		if kind == "" {
+			continue
+		}
+		for _, nx := range r.seq[i+1:] {
+			if !nx.send && nx.kind == kind {
+				break
+			}
+			if nx.send && (imm || nx.store == it.store) {
+				d = fmt.Sprintf("FAIL resend without backoff after=%s store=%d owed=%s", it.fault, it.store, kind)
+				break
+			}
+		}
+		if d != "ok" {
+			break
+		}
+	}
+	emit("prop backoffdiscipline", d)
 
 	// 3. write commands never flagged replica read / stale read
 	w := "ok"
